@@ -43,6 +43,7 @@ type Exec struct {
 	PointsSeen int64
 	Err        string
 	Diverged   bool
+	Stuck      bool
 }
 
 // Backend executes the scenario once from its initial state, following prefix (then choice 0),
@@ -195,6 +196,10 @@ func run(sc *Scenario, prefix []int) *Exec {
 		x.Events++
 		last = t
 		switch ev.Kind {
+		case vs.EvStuck:
+			x.Err = "a managed thread did not reach its next scheduling point (blocked outside the scheduler's view)"
+			x.Stuck = true
+			return x
 		case vs.EvDone:
 			ps[t].done = true
 		case vs.EvPanic:
@@ -304,7 +309,7 @@ func Explore(name string, be Backend, maxBound int, expected []string, maxExec i
 			Progress()
 		}
 		st.PointsSeen = x.PointsSeen
-		if x.Diverged {
+		if x.Diverged || x.Stuck {
 			st.Diverged, st.Capped = true, true
 			return true
 		}
